@@ -59,7 +59,18 @@ def startup(chk):
             chk.bad(rule, run.qual, "run() calls runtime.accept() %d times" % len(ac), node=run.node, stmt="accept-count")
             ok = False
             continue
-        loaders = [(i, c) for i, c in ad if c[2] and c[2][0] == ("glob", slots.load_services(prog).qual)]
+        LS = ("glob", slots.load_services(prog).qual)
+
+        def unbind(c):
+            """adopt(f, cfg)  or  adopt(partial(f, cfg)) -> (f, [cfg...])"""
+            if not c[2]:
+                return None, []
+            a0 = c[2][0]
+            if a0[0] == "call" and a0[1] == ("glob", "ext:functools.partial") and a0[2]:
+                return a0[2][0], list(a0[2][1:]) + list(c[2][1:])
+            return a0, list(c[2][1:])
+
+        loaders = [(i, c) for i, c in ad if unbind(c)[0] == LS]
         if len(loaders) != 1:
             chk.bad(rule, run.qual, "run() does not adopt the configuration-loading coroutine exactly once (%d): the daemon stays up idle without its pipeline" % len(loaders), node=run.node, stmt="adopt-loader")
             ok = False
@@ -72,8 +83,8 @@ def startup(chk):
         if fl != ("glob", "ext:asyncio"):
             chk.bad(rule, run.qual, "the configuration loader is adopted with flavour %s: the configured objects are not constructed inside the running asyncio event loop" % (show(fl) if fl else "missing"), node=run.node, stmt="loader-flavour")
             ok = False
-        if list(c[2][1:]) != [("sym", run.params()[0])]:
-            chk.bad(rule, run.qual, "the loader is given %s instead of the configuration path" % [show(a) for a in c[2][1:]], node=run.node, stmt="loader-args")
+        if unbind(c)[1] != [("sym", run.params()[0])]:
+            chk.bad(rule, run.qual, "the loader is given %s instead of the configuration path" % [show(a) for a in unbind(c)[1]], node=run.node, stmt="loader-args")
             ok = False
         # nothing after accept
         after = [e for e in evs[ac[0][0] + 1 :] if e[0] in ("call", "raise")]
@@ -117,7 +128,9 @@ def keep_alive(chk):
     if [util.unparse(a) for a in lc.args] + [util.unparse(k.value) for k in lc.keywords] != [ls.params()[0]]:
         chk.bad(rule, name, "load() is given %s instead of the configuration path" % util.unparse(lc), node=lc, stmt="load-arg")
         ok = False
-    holder = [w for w in withs if any(it.context_expr is lc for it in w.items)]
+    bound_to = {t.id for a in ast.walk(ls.node) if isinstance(a, ast.Assign) and a.value is lc for t in a.targets if isinstance(t, ast.Name)}
+    rebound = [a for a in ast.walk(ls.node) if isinstance(a, (ast.Assign, ast.Delete)) and a is not None and any(isinstance(t, ast.Name) and t.id in bound_to for t in (a.targets if hasattr(a, "targets") else [])) and getattr(a, "value", None) is not lc]
+    holder = [w for w in withs if any(it.context_expr is lc or (isinstance(it.context_expr, ast.Name) and it.context_expr.id in bound_to and not rebound) for it in w.items)]
     if not holder:
         handed = util.enclosing(util.parents_map(ls.node), lc, (ast.Call,))
         chk.bad(
@@ -139,7 +152,7 @@ def keep_alive(chk):
         if isinstance(n, ast.Await) and isinstance(n.value, ast.Call):
             r = prog.resolve(ls.module, n.value.func)
             txt = util.unparse(n.value)
-            if (r == "ext:asyncio.sleep" and "inf" in txt) or r in ("ext:trio.sleep_forever",) or txt.endswith("Event().wait()") or txt.endswith("Future()"):
+            if (r == "ext:asyncio.sleep" and ("inf" in txt)) or r in ("ext:trio.sleep_forever",) or txt.endswith("Event().wait()") or txt.endswith("Future()"):
                 parks.append(n)
             elif r == "ext:asyncio.sleep":
                 chk.bad(rule, name, "the loader sleeps for %s instead of forever: afterwards the configuration is released and its services can be collected" % util.unparse(n.value.args[0]), node=n, stmt="finite-park")
@@ -277,7 +290,44 @@ def keep_alive(chk):
             chk.ok(rule, pl.qual, "executes the module once and returns it", node=pl.node)
 
 
+def runtime_log(chk):
+    """O13.6: a `logging` section must not silence the runtime loggers that already exist (errors go to the runtime log)"""
+    prog = chk.program
+    rule = "O13.6"
+    fi = prog.func("cobald.daemon.config.mapping:configure_logging")
+    m = ("sym", fi.params()[0])
+    KEY = ("const", "disable_existing_loggers")
+    ok = False
+    for o in Interp(prog, fi).run():
+        chk.count()
+        cfg = [i for i, e in enumerate(o.path.events) if e[0] == "call" and e[1][1] == ("glob", "ext:logging.config.dictConfig")]
+        if not cfg:
+            chk.bad(rule, fi.qual, "the logging section is not applied", node=fi.node, stmt="no-dictConfig")
+            return
+        before = o.path.events[: cfg[0]]
+        for e in before:
+            if e[0] == "store" and e[1] == ("sub", m, KEY):
+                v = strip_sites(e[2])
+                if v == ("call", ("attr", m, "get"), (KEY, ("const", False)), ()):
+                    ok = True
+                elif v == ("const", False):
+                    ok = True  # always keeps them (stricter than needed, but never silences)
+            if e[0] == "call" and e[1][1] == ("attr", m, "setdefault") and list(e[1][2]) == [KEY, ("const", False)]:
+                ok = True
+    if ok:
+        chk.ok(rule, fi.qual, "disable_existing_loggers defaults to False before dictConfig: the runtime loggers created earlier keep reporting", node=fi.node)
+    else:
+        chk.bad(
+            rule,
+            fi.qual,
+            "the logging section is applied without defaulting disable_existing_loggers to False: dictConfig then disables every logger that already exists, including the runtime loggers, so the error of a failing service never reaches the log",
+            node=fi.node,
+            stmt="existing-loggers-disabled",
+        )
+
+
 def run(chk):
+    chk.guard("O13.6", "configure_logging", runtime_log, chk)
     chk.guard("O13.1", RUN, startup, chk)
     chk.guard("O13.2", LOAD_SERVICES, keep_alive, chk)
     # a failing service / failing load is a failing payload: the fail-stop chain (shared with C01)
